@@ -965,6 +965,8 @@ class Exec:
             return OpaqueV("const." + sanitize(c), want_ty or "")
         if c in ("RangeFull", "std::ops::RangeFull", "core::ops::RangeFull"):
             return AggV((), "RangeFull")
+        if re.match(r"^(?:std::marker::|core::marker::)?PhantomData(::<.*>)?$", c) or c in ("std::alloc::Global", "alloc::alloc::Global", "Global"):
+            return AggV((), "PhantomData")
         if re.fullmatch(r"[A-Za-z_][A-Za-z0-9_:]*", c) and getattr(self.ctx, "uninterpreted_unknown_calls", False):
             return OpaqueV("const." + sanitize(c), c)     # unit struct constant such as `RangeFull`
         raise Unsupported(f"constant `{c}`")
@@ -1101,6 +1103,9 @@ class Exec:
             inner = r[1:-1].strip()
             parts = [p for p in split_top(inner) if p != ""]
             return AggV(tuple(self.operand(fr, p) for p in parts), dty)
+        if r.startswith("SizeOf(") or r.startswith("AlignOf("):
+            # only used to size a heap allocation that the executor models as a cell: the number itself is irrelevant
+            return self.ctx.int(f"layout_{self.steps}_{len(self.ctx.decls)}", "usize")
         if r.startswith("["):
             inner = r[1:-1]
             rep = split_top(inner, "; ")
@@ -1406,6 +1411,14 @@ class Exec:
                     return IntV(v.t, tgt)
                 return IntV(self.wrap(v.t, tgt), tgt)
         if kind in ("Transmute", "PtrToPtr", "FnPtrToPtr") or kind.startswith("PointerCoercion"):
+            if kind == "Transmute" and ty.strip().startswith("*"):
+                # NonNull<T> / Unique<T> -> raw pointer: the wrapper's only field
+                w = v
+                for _ in range(4):
+                    if isinstance(w, AggV) and len(w.fields) >= 1 and not isinstance(w, RefV):
+                        w = w.fields[0]
+                if isinstance(w, RefV):
+                    return w
             return v
         raise Unsupported(f"cast {kind} to {ty} of {v}")
 
